@@ -12,7 +12,7 @@ All pairs of the result are pairs of the start, where the numbers other than `-1
 hence pairwise different: a number determines its point.
 -/
 
-namespace Splipy.MP
+namespace Splipy.MP.C18L
 
 variable {γ : Type} [Inhabited γ]
 
@@ -156,4 +156,4 @@ theorem number_determines_point (plans : List PatchPlan) (P : List (NdArr γ))
     intro x y hx hy hxy hne
     rw [eq_of_nodup_filter_map hnodup (hback x hx) (hback y hy) hxy hne]
 
-end Splipy.MP
+end Splipy.MP.C18L
